@@ -21,6 +21,7 @@ type verifShape struct {
 	directive          []string
 	failFile, failStmt int
 	ckpt               int // 1-based index of the file tagged as checkpoint, 0 = none
+	extra              int // 1-based index of the file that holds one more statement, 0 = none
 }
 
 func (sh verifShape) fileContent(i int) string {
@@ -37,6 +38,9 @@ func (sh verifShape) fileContent(i int) string {
 	for j := 0; j < sh.ns; j++ {
 		id := fmt.Sprintf("S%d_%d", i, j)
 		content += verifStmtSQL(id, i == sh.failFile && j == sh.failStmt) + ";\n"
+	}
+	if sh.extra == i+1 {
+		content += verifStmtSQL(fmt.Sprintf("S%d_%d", i, sh.ns), false) + ";\n"
 	}
 	return content
 }
